@@ -1256,13 +1256,37 @@ pub fn adjusted_parse_rate(tree: &Tree, parse_time: Duration) -> f64 {
 }
 
 fn write_tests(file_path: &Path, corrected_entries: &[TestCorrection]) -> Result<()> {
+    // The delimiter suffix of the file and the text in front of its first test are not part of
+    // any test entry; take them from the content that is about to be replaced.
+    let old_content = fs::read_to_string(file_path).unwrap_or_default();
+    let (preamble, suffix) = preamble_and_suffix(&old_content);
     let mut buffer = fs::File::create(file_path)?;
-    write_tests_to_buffer(&mut buffer, corrected_entries)
+    buffer.write_all(preamble.as_bytes())?;
+    write_tests_to_buffer_with_suffix(&mut buffer, corrected_entries, &suffix)
+}
+
+/// The text before the first test header of a corpus file, and the file's delimiter suffix.
+fn preamble_and_suffix(content: &str) -> (&str, String) {
+    let lines = content.split_inclusive('\n').collect::<Vec<_>>();
+    let first_suffix = find_first_suffix(&lines);
+    let first_header = (0..lines.len())
+        .find(|&i| parse_header(&lines, first_suffix.as_deref(), i).is_some())
+        .unwrap_or(0);
+    let preamble_len = lines[..first_header].iter().map(|line| line.len()).sum();
+    (&content[..preamble_len], first_suffix.unwrap_or_default())
 }
 
 fn write_tests_to_buffer(
     buffer: &mut impl Write,
     corrected_entries: &[TestCorrection],
+) -> Result<()> {
+    write_tests_to_buffer_with_suffix(buffer, corrected_entries, "")
+}
+
+fn write_tests_to_buffer_with_suffix(
+    buffer: &mut impl Write,
+    corrected_entries: &[TestCorrection],
+    suffix: &str,
 ) -> Result<()> {
     for (
         i,
@@ -1281,7 +1305,7 @@ fn write_tests_to_buffer(
         }
         writeln!(
             buffer,
-            "{}\n{name}\n{}{}\n{input}\n{}\n\n{}",
+            "{}{suffix}\n{name}\n{}{}{suffix}\n{input}\n{}{suffix}\n\n{}",
             "=".repeat(*header_delim_len),
             if attributes_str.is_empty() {
                 attributes_str.clone()
@@ -1579,17 +1603,21 @@ fn parse_header(
     Some((pending, line_num + 1)) // +1 to consume the closing `===` line
 }
 
-fn parse_test_content(name: String, content: &str, file_path: Option<PathBuf>) -> TestEntry {
-    let mut children = Vec::new();
-    let lines = content.split_inclusive('\n').collect::<Vec<_>>();
-
-    // Determine the suffix from the first `===` line in the file.
-    let first_suffix = lines
+/// Determine the suffix from the first `===` line in the file that has one.
+fn find_first_suffix(lines: &[&str]) -> Option<String> {
+    lines
         .iter()
         .find_map(|line| match parse_delimiter_line(line, '=')? {
             (_, suffix) if !suffix.is_empty() => Some(suffix.to_string()),
             _ => None,
-        });
+        })
+}
+
+fn parse_test_content(name: String, content: &str, file_path: Option<PathBuf>) -> TestEntry {
+    let mut children = Vec::new();
+    let lines = content.split_inclusive('\n').collect::<Vec<_>>();
+
+    let first_suffix = find_first_suffix(&lines);
 
     // Scan for header blocks and build test entries from the bodies between them.
     let mut line_num = 0;
